@@ -73,6 +73,8 @@ class Gen(object):
             w(3, lambda: ([['map', self.raising(self.int_map(), t) if err else self.int_map()]], INT))
             w(2, lambda: ([['filter', self.raising(self.int_pred(), t) if err else self.int_pred()]], INT))
             w(1, lambda: ([['map', ['pair', ID, self.int_map()]]], PAIR))
+            if in_tee:     # a branch that legitimately emits None for some items (join cells must not read it as empty)
+                w(1, lambda: ([['map', ['noneif', self.int_pred()]]], ANY))
             w(1, lambda: ([['map', ['div', ev(r.choice([2, 4, 3]))]]], FLT))
             w(2, lambda: ([['scan', ['raiseif', ['comp', ['mod', 3], ['eq', ev(1)]], r.choice([1, 2]), ['add']] if err else r.choice([['add'], ['max'], ['min'], ['sub']]),
                             ev(r.randint(-1, 3)), int(r.random() < 0.3), None]], INT))
